@@ -130,6 +130,24 @@ def run(run, ix, tier):
           [norm(a) for a in c.args[-2:]] == [pname, rname]]
     if not fm:
         problems.append('final product is not rounded with the caller\'s (prec, rnd)')
+    # the directed power may only be used as a FACTOR: as a divisor the same direction pushes the
+    # quotient the opposite way (monotonicity), so the sign-selected mode would be the wrong one
+    if len(pw) == 1:
+        pnames = set()
+        for st in body:
+            for x in ast.walk(st):
+                if isinstance(x, ast.Assign) and any(y is pw[0] for y in ast.walk(x.value)):
+                    for t in x.targets:
+                        if isinstance(t, ast.Name):
+                            pnames.add(t.id)
+        for c in calls:
+            if norm(c.func) in ('mpf_div', 'mpf_rdiv_int') and len(c.args) >= 2:
+                d = c.args[1]
+                if any(y is pw[0] for y in ast.walk(d)) or (isinstance(d, ast.Name) and d.id in pnames):
+                    problems.append('the directed power of ten is used as a DIVISOR (`%s`): a divisor rounded '
+                                    'in the result\'s direction moves the quotient the opposite way, so a '
+                                    'directed conversion can land on the wrong side of the literal'
+                                    % norm(c, 60))
     if problems:
         fail(norm(b), '; '.join(problems), b.lineno)
     else:
@@ -143,6 +161,8 @@ def run(run, ix, tier):
         fail("'p/q' branch", 'fraction literals are not converted by one directed rational rounding', f.lineno)
 
     check_threading(run, ix)
+    from .c02 import check_keyword_independence
+    check_keyword_independence(run, ix, 'B-R3t')
     check_interval_literals(run, ix, eng)
     check_no_lossy_cache(run, ix)
 
